@@ -72,26 +72,33 @@ def _exec_gate(ctx, prog):
         return
     cpis = [c for c in f.calls if re.search(r"(^|::)(invoke|invoke_signed|invoke_unchecked|invoke_signed_unchecked)$", c.name or "")]
     ctx.ob("exec-gate:one-cpi", len(cpis) == 1, "the handler performs exactly one CPI (%s)" % [c.rshort for c in cpis], where=f.where())
-    role_re = (r"^Store::has_role\(AccountLoader::load\(ctx\.accounts\.store\)\?, "
-               r"Option::ok_or(_else)?\(InstructionHeader::apporver\(InstructionRef::header\(" + LOADED + r"\)\), [^()]*(closure<[^>]*>|[A-Za-z:{} ]+)\)\?, "
-               r"roles::timelocked_role\(Executor::role_name\(AccountLoader::load\(ctx\.accounts\.executor\)\?\)\?\)\)\?$")
-    delay_re = (r"^InstructionHeader::is_executable\(InstructionRef::header\(" + LOADED + r"\), "
-                r"TimelockConfig::delay\(AccountLoader::load\(ctx\.accounts\.timelock_config\)\?\)\)\?$")
+    # canonical renderings: `X!` = the success payload of X however it is unwrapped (`?`, ok_or_else(..)?, let-else, match)
+    LD = r"InstructionLoader::load_instruction\(ctx\.accounts\.instruction\)!"
+    role_re = (r"^Store::has_role\(AccountLoader::load\(ctx\.accounts\.store\)!, "
+               r"InstructionHeader::apporver\(InstructionRef::header\(" + LD + r"\)\)!, "
+               r"roles::timelocked_role\(Executor::role_name\(AccountLoader::load\(ctx\.accounts\.executor\)!\)!\)\)!$")
+    delay_re = (r"^InstructionHeader::is_executable\(InstructionRef::header\(" + LD + r"\), "
+                r"TimelockConfig::delay\(AccountLoader::load\(ctx\.accounts\.timelock_config\)!\)\)!$")
     for c in cpis:
-        facts = A.cmp_facts(f, c.bb)
-        ctx.ob("exec-gate:approver-role", A.has_bool_fact(facts, True, role_re),
-               "the CPI is under `store.has_role(header.apporver() or Err, timelocked_role(executor.role_name()?))? == true`", where=f.where(c.line),
-               detail=[x[:200] for x in H.fact_strs(facts)])
-        ctx.ob("exec-gate:delay", A.has_bool_fact(facts, True, delay_re),
-               "the CPI is under `header.is_executable(timelock_config.delay())? == true`", where=f.where(c.line))
+        facts = H.canon_facts(f, c.bb)
+        ctx.ob("exec-gate:approver-role", H.has_canon_bool(facts, True, role_re),
+               "the CPI is dominated by `store.has_role(header.apporver() [must be Some], timelocked_role(executor.role_name()))` being true "
+               "(any branch form; a missing approver / failed lookup never reaches the CPI)", where=f.where(c.line),
+               detail=[("%s %s %s" % (a, o, b))[:200] for (o, a, b) in facts])
+        ctx.ob("exec-gate:delay", H.has_canon_bool(facts, True, delay_re),
+               "the CPI is dominated by `header.is_executable(timelock_config.delay())` being true", where=f.where(c.line))
+        # the instruction handed to the CPI is the success payload of to_instruction(<loaded buffer>, false), built inline or bound earlier
         ix = c.arg_expr(0)
-        t = H.peel(ix)
-        ok = t.k == "call" and t.a[0] == "InstructionAccess::to_instruction" and re.match("^" + LOADED + "$", str(t.a[1][0])) is not None \
-            and str(t.a[1][1]) == "false" and str(ix).endswith("?")
+        t = H.unwrap_success(ix)
+        ok = t is not None and t.k == "call" and t.a[0] == "InstructionAccess::to_instruction" and re.match("^" + LD + "$", H.canon(t.a[1][0])) is not None \
+            and str(t.a[1][1]) == "false"
+        tis = f.calls_to(r"InstructionAccess::to_instruction$")
+        ok = ok and len(tis) == 1
         ctx.ob("exec-gate:invokes-buffered", ok and str(c.arg_expr(1)) == "ctx.remaining_accounts",
-               "the invoked instruction is to_instruction(<the loaded buffer>, false)? with the caller's remaining accounts", where=f.where(c.line))
-        seeds = str(c.arg_expr(2))
-        ctx.ob("exec-gate:signer-seeds", re.search(r"ExecutorWalletSigner::new\(Key::key\(ctx\.accounts\.executor\), AccountLoader::load\(ctx\.accounts\.executor\)\?\.wallet_bump\)", seeds) is not None,
+               "the invoked instruction is the Ok payload of to_instruction(<the loaded buffer>, false) with the caller's remaining accounts: %s" % H.canon(ix)[:140],
+               where=f.where(c.line))
+        seeds = H.canon(c.arg_expr(2))
+        ctx.ob("exec-gate:signer-seeds", re.search(r"ExecutorWalletSigner::new\(Key::key\(ctx\.accounts\.executor\), AccountLoader::load\(ctx\.accounts\.executor\)!\.wallet_bump\)", seeds) is not None,
                "the only PDA signer is the executor wallet of ctx.accounts.executor", where=f.where(c.line))
     li = f.calls_to(r"InstructionLoader.*::load_instruction$|::load_instruction$")
     ctx.ob("exec-gate:one-buffer", len(li) == 1 and str(li[0].arg_expr(0)) == "ctx.accounts.instruction",
@@ -207,7 +214,7 @@ def _approve(ctx, prog):
         on = v.calls_to(r"CpiAuthenticate::only$")
         ok = len(on) == 1 and str(on[0].arg_expr(0)) == "ctx" and str(on[0].arg_expr(1)) == "roles::timelocked_role(role)"
         if ok:
-            ts = anchor.try_switch_of(v, on[0])
+            ts = H.success_edge(v, on[0])
             oks = [bb for bb, k, e in v.exits() if k == "ok"]
             ok = ts is not None and bool(oks) and all(v.dominates(ts[1], bb) for bb in oks)
         ctx.ob("approve:role-check", ok, "validate_timelocked_role returns Ok only behind CpiAuthenticate::only(ctx, timelocked_role(role))?", where=v.where())
@@ -220,7 +227,7 @@ def _approve(ctx, prog):
         aps = h.calls_to(HD + "approve$")
         ok = len(vs) == 1 and len(aps) == 1 and [str(vs[0].arg_expr(i)) for i in range(2)] == ["ctx", "role"]
         if ok:
-            ts = anchor.try_switch_of(h, vs[0])
+            ts = H.success_edge(h, vs[0])
             ok = ts is not None and h.dominates(ts[1], aps[0].bb)
             # nothing mutable is loaded before the check either
             lm = h.calls_to(r"AccountLoader::<.*>::load_mut$|AccountLoader.*load_mut$")
@@ -250,7 +257,7 @@ def _delay(ctx, prog):
     if f:
         w = H.writes_to(f, r"^self\.delay$")
         c = H.checked_op(w[0][2]) if len(w) == 1 else None
-        ok = c is not None and c[0] == "checked" and c[1] == "add" and str(c[2]) == "self.delay" and str(c[3]) == "delta" and str(w[0][2]).endswith("?")
+        ok = c is not None and c[0] == "checked" and c[1] == "add" and str(c[2]) == "self.delay" and str(c[3]) == "delta" and H.unwrap_success(w[0][2]) is not None
         fld = [x for x in ctx.adt(r"gmsol_timelock::states::config::TimelockConfig").fields if x["name"] == "delay"]
         ctx.ob("delay-grows:checked-add", ok and bool(fld) and fld[0]["ty"] == "u32",
                "increase_delay stores checked_add(self.delay, delta)? on an unsigned field (%s)" % (fld[0]["ty"] if fld else "?"), where=f.where())
